@@ -329,28 +329,30 @@ PUpdate(p, ep, arg, code, o, disk0, sha0, cur0, known) ==
         \* a refused update leaves everything as it was; the engine's roll-back loads the restored tree again, and with it
         \* whatever the operator had changed on disk without loading it
         pending == disk0 # cur0 /\ Validity(disk0, known) # "invalid"
-        Refused(learn) ==
-            IF ~isOld THEN Bad("UpdateOutcome", p)
-            ELSE IF o.served = Beh(cur0) /\ pending /\ o.served = Beh(disk0) /\ EngOK
-                 THEN Res("", [old EXCEPT !.alt = old.alt \cup {disk0}], {}, learn)        \* either may be loaded now
-            ELSE IF o.served = Beh(cur0) THEN Res("", old, {}, learn)
-            ELSE IF pending /\ o.served = Beh(disk0) /\ EngOK
-                 THEN Res("", [old EXCEPT !.cur = disk0, !.alt = {}, !.loose = FALSE], {"FailedUpdateLoadsPendingEdits"}, learn)
-            ELSE Bad("UpdateOutcome", p)
+        \* which configuration may be loaded after a refused update: the one that was (the statement), the restored tree
+        \* with the operator's pending edits (the engine's roll-back), and - only when the proxy refused a call - the
+        \* target, whose engine was already serving when the refusal came and which the roll-back could not replace
+        Refused(learn, withTgt) ==
+            LET c1 == o.served = Beh(cur0)
+                c2 == pending /\ EngOK /\ o.served = Beh(disk0)
+                c3 == withTgt /\ val # "invalid" /\ tgt # cur0 /\ o.served = Beh(tgt)
+                matches == (IF c1 THEN {cur0} ELSE {}) \cup (IF c2 THEN {disk0} ELSE {}) \cup (IF c3 THEN {tgt} ELSE {})
+                prim == IF c1 THEN cur0 ELSE IF c2 THEN disk0 ELSE tgt
+            IN IF ~isOld \/ matches = {} THEN Bad("UpdateOutcome", p)
+               ELSE Res("", [old EXCEPT !.cur = prim, !.alt = (IF c1 THEN old.alt ELSE {}) \cup (matches \ {prim})],
+                        IF ~c1 /\ c2 THEN {"FailedUpdateLoadsPendingEdits"} ELSE {}, learn)
     IN
     IF ~arg.decodable THEN (IF ~IsOK(code) /\ isOld /\ o.served = Beh(cur0) /\ o.put = 0 THEN Ok(old) ELSE Bad("UpdateOutcome", p))
     ELSE IF o.hapfault THEN
         IF val = "invalid" /\ IsOK(code) THEN Bad("Agree", p)
         ELSE IF IsOK(code) THEN (IF isNew /\ o.served = Beh(tgt) THEN Ok(new) ELSE Bad("UpdateOutcome", p))
-        ELSE IF isOld /\ o.served # Beh(cur0) /\ ~(pending /\ o.served = Beh(disk0)) /\ o.served = Beh(tgt) /\ val # "invalid"
-             THEN Ok([old EXCEPT !.cur = tgt, !.alt = {}, !.loose = FALSE])
-        ELSE Refused({})
-    ELSE IF val = "invalid" THEN (IF IsOK(code) THEN Bad("Agree", p) ELSE Refused({}))
+        ELSE Refused({}, TRUE)
+    ELSE IF val = "invalid" THEN (IF IsOK(code) THEN Bad("Agree", p) ELSE Refused({}, FALSE))
     ELSE IF val = "valid" THEN
         IF code # 200 THEN Bad("Agree", p) ELSE IF isNew /\ o.served = Beh(tgt) THEN Ok(new) ELSE Bad("UpdateOutcome", p)
     ELSE IF IsOK(code) THEN
         IF isNew /\ o.served = Beh(tgt) THEN Res("", new, {}, {<<tgt, TRUE>>}) ELSE Bad("UpdateOutcome", p)
-    ELSE Refused({<<tgt, FALSE>>})
+    ELSE Refused({<<tgt, FALSE>>}, FALSE)
 
 POnError(p, e) ==
     IF e.arg.decodable = (e.code = 200) /\ (~e.arg.decodable) = ~IsOK(e.code) /\ Untouched(p, e.obs) THEN Ok(p) ELSE Bad("ErrorReport", p)
@@ -436,13 +438,14 @@ PBegin(p, e, known) ==
     ELSE IF ~mixed THEN Bad("UpdateOutcome", p)
     ELSE IF o.served \notin {Beh(p.cur), Beh(tgt)} \cup (IF EngOK THEN {Beh(p.disk)} ELSE {}) THEN Bad("NeverHalf", p)
     ELSE Ok([p EXCEPT !.flight = [on |-> TRUE, ep |-> e.ep, arg |-> e.arg, disk0 |-> p.disk, sha0 |-> p.sha, cur0 |-> p.cur,
-                                  target |-> tgt, ls |-> o.served],
+                                  target |-> tgt, ls |-> o.served, hf |-> o.hapfault],
                       !.disk = o.disk, !.sha = o.sha])
 
 PFinish(p, e, known) ==
     LET fl == p.flight IN
     IF ~fl.on THEN Bad("Harness", p)
-    ELSE PUpdate(p, fl.ep, fl.arg, e.code, e.obs, fl.disk0, fl.sha0, fl.cur0, known)
+    ELSE \* a refusal of the proxy that happened before the update was parked belongs to the update as well
+         PUpdate(p, fl.ep, fl.arg, e.code, [e.obs EXCEPT !.hapfault = e.obs.hapfault \/ fl.hf], fl.disk0, fl.sha0, fl.cur0, known)
 
 \* ---- one administrative request, no update in flight
 PCall(p, e, known) ==
